@@ -414,7 +414,16 @@ class SimPool:
             start = free_at[w]
             end = round(start + dur, 6)
             free_at[w] = end
-            plan.append((w, start, end))
+            # when, inside [start, end], the task's side effects happen (it is executed as one atomic step at that moment):
+            # overlapping tasks of different workers can so take effect in any order, as their writes to a shared
+            # descriptor would in a real pool
+            if prof in ("serial", "lockstep"):
+                frac = 0.0
+            elif prof == "reverse-finish":
+                frac = 1.0
+            else:
+                frac = dec.draw("effect-frac", lambda r: round(r.random(), 6))
+            plan.append((w, start, end, round(start + frac * (end - start), 6)))
         return plan
 
     def _map(self, f, iterables, ordered):
@@ -428,11 +437,12 @@ class SimPool:
         for w in sorted({p[0] for p in plan}):
             if w not in self.workers:
                 self.workers[w] = _Worker(st, w, self.round)
-        for i, (w, s, e) in enumerate(plan):
-            st.ev("assign", self.round, i, w, round(s, 6), round(e, 6))
+        for i, (w, s, e, x) in enumerate(plan):
+            st.ev("assign", self.round, i, w, round(s, 6), round(e, 6), x)
         # interleaving signature: (nodes, task->worker map, completion permutation)
         completion = sorted(range(ntasks), key=lambda i: (plan[i][2], i))
-        st.stats["signatures"].append([self.nodes, [p[0] for p in plan], completion])
+        effect_order = sorted(range(ntasks), key=lambda i: (plan[i][3], i))
+        st.stats["signatures"].append([self.nodes, [p[0] for p in plan], completion, effect_order])
         inv = 0
         rank = {t: k for k, t in enumerate(completion)}
         for i in range(ntasks):
@@ -440,7 +450,7 @@ class SimPool:
             inv += over
             st.stats["max_overtaken"] = max(st.stats["max_overtaken"], over)
         st.stats["inversions"] += inv
-        starts = [(plan[i][1], i) for i in range(ntasks)]
+        starts = [(plan[i][3], i) for i in range(ntasks)]          # ordered by effect time
         heapq.heapify(starts)
         results = {}
         order = list(range(ntasks)) if ordered else completion
@@ -460,7 +470,7 @@ class SimPool:
                 s, j = heapq.heappop(starts)
                 st.now = max(st.now, s)
                 results[j] = self._execute(f, j, items[j], plan[j][0])
-            if i not in results:   # cannot happen: start <= end <= t
+            if i not in results:   # cannot happen: effect time <= end <= t
                 raise HarnessError("scheduler bug: item delivered before it started")
             st.now = t
             ok, body = results.pop(i)
